@@ -49,7 +49,7 @@ class C16(Harness):
     assumptions = ['every struct in the workspace deriving FromDeb822/ToDeb822 (field tables read from the current source); test structs inside #[cfg(test)] modules are not part of the library MIR',
                    'String / Option<String> fields take symbolic alphanumeric tokens (the focus field also with a trailing blank); fields of other types take a value accepted by the real code (found by native probing of a small pool) - the conversion plumbing is decided symbolically, those codecs on the probed value',
                    'one case per field: that field present/absent in the value and in the prior paragraph (solver choices), other optional fields absent; plus one case with every field present',
-                   'prior paragraph for update_paragraph: one foreign field before the own fields; on the lossless back-end additionally built from text with a comment and unusual spacing that must survive',
+                   'prior paragraph for update_paragraph: one foreign field before the own fields, optionally a second foreign field spelled like the focus key in lower case; on the lossless back-end additionally built from text with a comment and unusual spacing that must survive',
                    'error clause: each mandatory field removed in turn; each non-string field given a symbolic 1-character value']
     oracle_leniency = ['error messages are only required to contain the field name']
 
@@ -115,6 +115,9 @@ class C16(Harness):
             pairs.append((f['field'], v))
         # prior paragraph: a foreign field first, then (solver choice) the own focus field with an old value
         prior = [(FOREIGN, mkstr('f'))]
+        # a second foreign field spelled like the focus key in another letter case: not owned by the struct (names are case-sensitive)
+        if fam == 'field' and focus and focus.lower() != focus and e.choose('casevariant', 2): prior.append((focus.lower(), mkstr('legacy')))
+        nforeign = len(prior)
         if fam in ('field', 'all'):
             for f in fields:
                 inprior = (fam == 'all') or (f['field'] == focus and bool(e.choose('inprior', 2))) or (not f['optional'] and bool(e.choose('mandprior', 2)) if f['field'] == focus else False)
@@ -154,8 +157,8 @@ class C16(Harness):
             p3 = build_para(e, backend, prior)
             e.call_path(crate, '<%s as ToDeb822Paragraph<%s>>::update_paragraph' % (ty, P), [Ref([x], [0]), Ref([p3], [0])])
             it3 = items_of(e, backend, p3)
-            checks.append(('%s: update leaves the foreign field first and unchanged' % backend, len(it3) >= 1 and b_and(veq(e, it3[0][0], mkstr(FOREIGN)), veq(e, it3[0][1], mkstr('f')))))
-            own3 = it3[1:]
+            checks.append(('%s: update leaves the foreign fields first and unchanged' % backend, len(it3) >= nforeign and b_and(*[b_and(veq(e, it3[i][0], mkstr(prior[i][0])), veq(e, it3[i][1], prior[i][1])) for i in range(nforeign)])))
+            own3 = it3[nforeign:]
             names3 = [k for k, _ in own3]
             checks.append(('%s: after update exactly the present own fields exist (absent options removed)' % backend,
                            len(own3) == len(order) and b_and(*[b_or(*[veq(e, k, mkstr(n)) for k in names3]) for n in order])))
@@ -207,8 +210,10 @@ class C16(Harness):
             u = r['update']
             if 'panic' in u: v.append(('update-panic:%s:%s' % (classify_panic(u['panic']), tag), 'update_paragraph panics: %s' % u['panic'][:120])); continue
             up = u['pairs']
-            if not up or up[0] != [FOREIGN, 'f']: v.append(('foreign-changed:' + tag, 'update changed the foreign field: %r' % up))
-            if sorted(k for k, _ in up[1:]) != sorted(order): v.append(('update-fields:' + tag, 'after update the paragraph has %r, the value has %r' % ([k for k, _ in up], order)))
+            own_keys = set(fields)
+            foreign = [list(kv) for kv in w['prior'] if kv[0] not in own_keys]
+            if up[:len(foreign)] != foreign: v.append(('foreign-changed:' + tag, 'update changed a field the struct does not own: prior %r, after %r' % (w['prior'], up)))
+            if sorted(k for k, _ in up[len(foreign):]) != sorted(order): v.append(('update-fields:' + tag, 'after update the paragraph has %r, the value has %r' % ([k for k, _ in up], order)))
             ut = r.get('update_text')
             if backend == 'lossless' and ut:
                 if 'panic' in ut: v.append(('update-text-panic:' + tag, 'update of a parsed paragraph panics: %s' % ut['panic'][:100]))
